@@ -8,15 +8,16 @@
 (***************************************************************************)
 EXTENDS Escape, TLC, Json
 
-CONSTANTS N, Emit
+CONSTANTS N, Emit, Mode     \* Mode: "general" | "ref" (strings that start with "&#": signs, leading zeros, radix prefix, missing ';')
 Symbols == { <<60>>, <<62>>, <<38>>, <<39>>, <<34>>, <<35>>, <<120>>, <<59>>, <<49>>, <<48>>,
              <<97>>, <<108>>, <<116>>, <<32>>, <<195, 169>> }
+RefSymbols == { <<120>>, <<48>>, <<49>>, <<57>>, <<43>>, <<45>>, <<59>>, <<97>>, <<70>> }     \* x 0 1 9 + - ; a F
 Levels == {"full", "partial", "minimal", "item"}
 
 VARIABLES s, n
 evars == <<s, n>>
-Init == s = <<>> /\ n = 0
-Next == n < N /\ \E y \in Symbols : s' = s \o y /\ n' = n + 1
+Init == s = (IF Mode = "ref" THEN <<38, 35>> ELSE <<>>) /\ n = 0
+Next == n < N /\ \E y \in (IF Mode = "ref" THEN RefSymbols ELSE Symbols) : s' = s \o y /\ n' = n + 1
 Spec == Init /\ [][Next]_evars
 
 \* unescaping the escaped form returns the string, at every level
